@@ -391,7 +391,7 @@ impl VersionSet {
             }
         }
 
-        if maybe_manifest_read_error.is_none() && manifest_reader.saw_corruption() {
+        if maybe_manifest_read_error.is_none() && manifest_reader.lost_records_before_end() {
             // Unlike a write-ahead log, the manifest cannot tolerate skipped records: every
             // record changes the set of live files
             maybe_manifest_read_error = Some(RecoverError::ManifestParse(
